@@ -266,6 +266,20 @@ func (x *Exec) loopEnter(st *State, fi int, li *loopInfo, from *ssa.BasicBlock) 
 		nv := x.freshValue(st, "loop."+c.name, c.typ)
 		st.cells[c] = nv
 	}
+	// ghost locals assigned in the loop take an arbitrary value at the cut
+	for _, name := range sortedKeys(rec.ghostL) {
+		if cur, ok := st.ghostLoc[name]; ok && cur.T.S != "" {
+			nv := cur
+			nv.T = x.decls.Fresh("loop.ghost."+name, cur.T.Sort)
+			st.ghostLoc[name] = nv
+		}
+		for _, r := range x.recs {
+			if r.ghostL == nil {
+				r.ghostL = map[string]bool{}
+			}
+			r.ghostL[name] = true
+		}
+	}
 	modObjs := map[string][]Term{} // heap name -> objects allowed to change
 	if spec != nil && spec.HasMod {
 		env := x.envFor(st, fi, true)
@@ -289,6 +303,9 @@ func (x *Exec) loopEnter(st *State, fi int, li *loopInfo, from *ssa.BasicBlock) 
 			x.heapSet(st, name, cur)
 		} else {
 			st.heap[name] = x.decls.Fresh("loop."+name, sortS)
+			if name == "G$loglen" {
+				st.assume(Le(IntLit(0), st.heap[name]))
+			}
 		}
 	}
 	if len(rec.heap) > 0 || rec.all {
@@ -462,6 +479,13 @@ func (x *Exec) resolveModifies(st *State, env *Env, item string, out map[string]
 	switch {
 	case item == "heap" || item == "nothing":
 		return
+	case strings.HasPrefix(item, "none(") && strings.HasSuffix(item, ")"):
+		// none(<heap array>): the array is named by the clause with no object
+		// allowed to change (loop clauses: iterations leave it untouched)
+		name := strings.TrimSpace(item[len("none(") : len(item)-1])
+		if _, ok := out[name]; !ok {
+			out[name] = []Term{}
+		}
 	case strings.HasPrefix(item, "elements(") && strings.HasSuffix(item, ")"):
 		v := env.EvalText(item[len("elements(") : len(item)-1])
 		et := elemTypeOf(v.Typ)
@@ -746,7 +770,14 @@ func (x *Exec) doReturn(st *State, fi int, res []Value, in ssa.Instruction) {
 	fr := st.frames[fi]
 	fr.retIdx++
 	if in != nil {
-		x.ghostAt(st, fi, fmt.Sprintf("return#%d", x.returnOrdinal(fr.fn, in)), "", nil)
+		extra := map[string]Value{}
+		for i, r := range res {
+			extra[fmt.Sprintf("result%d", i)] = r
+		}
+		if len(res) == 1 {
+			extra["result"] = res[0]
+		}
+		x.ghostAtX(st, fi, fmt.Sprintf("return#%d", x.returnOrdinal(fr.fn, in)), "", nil, extra)
 	}
 	st.frames = st.frames[:fi]
 	fr.ret(st, res)
